@@ -11,7 +11,7 @@
    The model is total by construction (structural recursion, fuel = input length / nesting limit);
    C08_fuel_enough says the fuel is never the reason for an answer. *)
 From SV Require Import Base.Prelude Base.Bytes Model.FrameBase Model.FrameTypes Model.FrameResp
-  Model.FrameCustom Model.FrameEnc Proofs.FrameBase_proofs Proofs.FrameTop_proofs Proofs.FrameC08_proofs.
+  Model.FrameCustom Model.FrameEnc Proofs.FrameBase_proofs Proofs.FrameTop_proofs Proofs.FrameCustom_proofs Proofs.FrameC08_proofs.
 Open Scope N_scope.
 
 (* well-formed response decoded exactly, under every feature combination, whatever follows *)
@@ -58,18 +58,11 @@ Theorem C08_depth : forall decompress ft v2 cmp stream,
   c_depth (snd (decode decompress ft v2 cmp stream)) <= DEPTH_LIMIT.
 Proof. exact decode_depth. Qed.
 
-(* C08_fuel_enough (full statement):
-     forall decompress ft v2 cmp stream st,
-       fst (decode decompress ft v2 cmp stream) <> OErr st EOutOfFuel.
-   Proved below for the frame reader, the extensions and every response body, for EVERY
-   custom-type string parser that itself never answers EOutOfFuel; the same fact for the model
-   [parse_custom] of that parser (its parameter loops have fuel = remaining string length + 2) is
-   not proved: it is only observed by the tie (the driver prints MODEL-OUT-OF-FUEL, a diff). *)
-Theorem C08_fuel_enough_partial : forall custom decompress,
-  (forall s, fst (custom s) <> Err EOutOfFuel) ->
-  forall ft v2 cmp stream st,
-  fst (decode_frame custom decompress ft v2 cmp stream) <> OErr st EOutOfFuel.
-Proof. exact decode_no_oof. Qed.
+(* the fuel of the counted loops, of the type parsers and of the custom-type string parser is never
+   exhausted: the model is the decoder on ALL inputs, not on those for which some fuel suffices *)
+Theorem C08_fuel_enough : forall decompress ft v2 cmp stream st,
+  fst (decode decompress ft v2 cmp stream) <> OErr st EOutOfFuel.
+Proof. exact (fun d => decode_no_oof parse_custom d parse_custom_noof). Qed.
 
 (* ---- non-vacuity ------------------------------------------------------------------------------ *)
 (* a RESULT/Rows frame with tracing and a warning: global table spec, columns
@@ -158,4 +151,4 @@ Print Assumptions C08_truncation_body.
 Print Assumptions C08_alloc.
 Print Assumptions C08_alloc_plain.
 Print Assumptions C08_depth.
-Print Assumptions C08_fuel_enough_partial.
+Print Assumptions C08_fuel_enough.
